@@ -10,7 +10,7 @@ import cli
 from impl import trees, treeoutput, treeinput, quiet, clone
 
 ID = "C17"
-MODULE = ['TT.Props.C17', 'TT.Props.C17More', 'TT.Props.C17Run', 'TT.Props.C17More2', 'TT.Props.C17More3', 'TT.Props.C17More4']
+MODULE = ['TT.Props.C17', 'TT.Props.C17More', 'TT.Props.C17Run', 'TT.Props.C17More2', 'TT.Props.C17More3', 'TT.Props.C17More4', 'TT.Props.C03Cmd']
 RULE = ("exhaustive specifications of up to 3 parts over {0#,1#,2#,5#,13#,0%,10%,29%,33%,50%,57%,100%,rest} x sizes "
         "0..12 and {100} (quick; more sizes thorough), a malformed stream, and `treetools transform --split` runs over "
         "all five output formats with and without filter_by_length. Non-trivial: more than one part")
@@ -171,6 +171,15 @@ def cli_case(rng, idx):
     lines.append(Line("corr", "convert_split", ["export", "continuous" if "continuous" in extra else "-", fmt, proto.enc_opts(dod),
                                                 proto.enc_s(decl) if decl is not None else "n", calls, proto.enc_s(spec),
                                                 proto.enc_s("".join(x[0] for x in sents))], parts_txt))
+    # wave 18: the same command against TT.runSplitCmd, from the raw words of the command line (--trans names, --params words,
+    # --dest-opts words, --src-opts words; TT/RunCmd.lean) - the --split branch of transform.run builds its parameter dict
+    # separately from the plain branch
+    names = (["punctuation_delete"] if pre_delete else []) + ["filter_by_length"] if use_filter else []
+    pwords = (["filteroperator:" + fop, "filtervalue:%d" % fval] + (["quiet"] if pre_delete else [])) if use_filter else []
+    swords = ["quiet", "continuous"] if "--src-opts" in extra else []
+    ew = lambda ws: ",".join(proto.enc_s(w) for w in ws)
+    lines.append(Line("corr", "split_cmd", ["export", ew(swords), fmt, ew(do), proto.enc_s(decl) if decl is not None else "n", ew(names),
+                                            ew(pwords), proto.enc_s(spec), proto.enc_s("".join(x[0] for x in sents))], parts_txt))
     if problems:
         l = Line("pred", "P.C17.reject", [proto.enc_s(spec), str(n)], note=";".join(problems))
         l.expect = "parts-well-formed-expected:" + problems[0]
